@@ -135,7 +135,7 @@ fn abscissae(run: &Run) -> Vec<(String, Vec<f64>)> {
 }
 
 pub fn run(run: &Run) {
-    run.rule("degrees 0..=6 × {integer, half, quarter grids; Chebyshev points (5..33 nodes) rounded to 2^-10; clustered; one-sided; uniform 40, 200, 1000, 1024, 1025, 1500, 2000, 2049 points} × every response over {-1,0,1}^n for the point sets with n ≤ 8 (all sub-selections of the integer/half grids) and polynomial + fixed noise patterns at noise scales {0,1e-3,1,1e3} and whole-response scales {1e-19,1e-16,1e-6,1,1e12}; each also on a regressor object that was fitted before to responses of scale 1e12 or to another point set; predict on every coefficient vector over {-2..2}^(d+1), d ≤ 3; non-trivial = degree ≥ 1");
+    run.rule("degrees 0..=6 × {integer, half, quarter grids; Chebyshev points (5..33 nodes) rounded to 2^-10; clustered; one-sided; uniform 40, 200, 1000, 1024, 1025, 1500, 2000, 2049 points} × every response over {-1,0,1}^n for the point sets with n ≤ 8 (all sub-selections of the integer/half grids) and polynomial + fixed noise patterns at noise scales {0,1e-3,1,1e3} and whole-response scales {1e-19,1e-16,1e-6,1,1e12}; every multiset over {-2..2} with multiplicities {0,1,2,9} (repeated abscissae, vanishing power sums); each also on a regressor object that was fitted before to responses of scale 1e12 or to another point set; predict on every coefficient vector over {-2..2}^(d+1), d ≤ 3; non-trivial = degree ≥ 1");
     let sets = abscissae(run);
     // 1. every response over {-1,0,1}^n on small abscissa sets
     let small_sets: Vec<Vec<f64>> = vec![
@@ -221,6 +221,43 @@ pub fn run(run: &Run) {
             if di.kappa <= 1e9 {
                 let yi: Vec<f64> = xi.iter().enumerate().map(|(i, _)| ((i * 5) % 7) as f64 - 3.0).collect();
                 fit_suite(run, &xi, &yi, d, &di, None, "interpolation");
+            }
+        }
+    });
+    // 2b. repeated abscissae: every multiset over {-2,-1,0,1,2} with multiplicities from {0,1,2,9}
+    // (power sums of the abscissae vanish exactly for many asymmetric ones, so the Gram matrix has
+    // structural zeros without being checkerboard)
+    par_words(4, 5, |w| {
+        let mult = [0usize, 1, 2, 9];
+        let mut x: Vec<f64> = Vec::new();
+        for (k, &wi) in w.iter().enumerate() {
+            for _ in 0..mult[wi] {
+                x.push(k as f64 - 2.0);
+            }
+        }
+        let distinct = w.iter().filter(|&&wi| wi != 0).count();
+        if distinct < 2 {
+            return;
+        }
+        for d in 1..distinct {
+            let des = match design(&x, d) {
+                Some(des) if des.kappa <= 1e9 => des,
+                _ => {
+                    run.skip("normal equations singular or cond > 1e9");
+                    continue;
+                }
+            };
+            let truth: Vec<f64> = (0..=d).map(|k| [1.0, -2.0, 0.5, 3.0, -1.0][k % 5]).collect();
+            for &scale in &[0.0, 1.0] {
+                let y: Vec<f64> = x.iter().enumerate().map(|(i, xv)| {
+                    let mut pv = 0.0;
+                    for k in (0..=d).rev() {
+                        pv = pv * xv + truth[k];
+                    }
+                    pv + scale * ([0.5, -1.0, 0.25, 1.0, -0.75, 0.0, -0.5][(i * 3) % 7])
+                }).collect();
+                fit_suite(run, &x, &y, d, &des, if scale == 0.0 { Some(&truth) } else { None }, "repeated-abscissae");
+                run.nontrivial(1);
             }
         }
     });
